@@ -33,12 +33,60 @@ type c13case struct {
 	three bool
 }
 
+// c13Extreme: true statements proved while single reads of crypto/rand.Reader return all ones / all zeros.
+func c13Extreme(r *mon.Run, table *rangeproof.SquaresTable) {
+	key := world.Fixture("toy512a")
+	m := bi(1).Lsh(bi(1), 200)
+	cred, err := key.SignCred([]*big.Int{bi(987654321), bi(77), m})
+	if err != nil {
+		panic(err)
+	}
+	for _, three := range []bool{false, true} {
+		extremeDraws(r.Pick(10, 20), func(desc string, hit func() bool) {
+			st := &rangeproof.Statement{Sign: 1, Factor: 1, Bound: sub(m, bi(1000))}
+			if three {
+				st = &rangeproof.Statement{Sign: -1, Factor: 1, Bound: add(m, bi(3)), Splitter: table}
+			}
+			ctx, nonce := bi(1), bi(424242)
+			var d *gabi.ProofD
+			var perr error
+			pv, stack := mon.Try(func() {
+				d, perr = cred.C.CreateDisclosureProof([]int{1}, map[int][]*rangeproof.Statement{2: {st}}, false, ctx, nonce)
+			})
+			if !hit() {
+				return
+			}
+			ds := fmt.Sprintf("three-squares=%v %s", three, desc)
+			r.Distinct("extreme-randomness", ds)
+			if pv != nil {
+				r.Eval("extreme-randomness", "panic")
+				r.Violation("C13/true-statement-not-provable/extreme-randomness", fmt.Sprintf("proving panics under an extreme random draw: %v at %s (%s)", pv, mon.PanicSite(stack), ds), map[string]any{"case": ds})
+				return
+			}
+			ok := false
+			if perr == nil && d != nil {
+				ok, _, _ = verifyD(key.PK, cloneD(d), ctx, nonce, false)
+				if ok {
+					rp := d.RangeProofs[2]
+					ok = len(rp) == 1 && rp[0].ProvesStatement(st.Sign, st.Factor, st.Bound)
+				}
+			}
+			r.Eval("extreme-randomness", outcome(ok, nil))
+			if !ok {
+				r.Violation("C13/true-statement-not-provable/extreme-randomness", fmt.Sprintf("a true statement cannot be proved (or the proof does not verify / does not prove it) under an extreme random draw (err=%v) (%s)", perr, ds), map[string]any{"case": ds})
+			}
+		})
+	}
+	r.FloorFam("extreme-randomness", 10)
+}
+
 func runC13(r *mon.Run) {
 	keys := []string{"toy256a"}
 	if r.Thorough() {
 		keys = []string{"toy256a", "toy512a", "toy512z", "fix1024a", "fix2048a"}
 	}
 	table := rangeproof.GenerateSquaresTable(4096)
+	c13Extreme(r, table)
 	rng := r.Rand("cases")
 	var cases []c13case
 	// dense window
